@@ -72,6 +72,10 @@ Definition view (s : sample) (idx : nat) (t : token) : value :=
   | TIndex => VIndex idx
   | TOther _ => VNone
   end.
+(* the context of a request describes the requested sample: every load that may record into it is a load of idx *)
+Definition load_index (l : load) : Z := match l with LdX i => i | LdClass i => i end.
+Definition ctx_describes (idx : nat) (s : sample) : Prop := Forall (fun l => load_index l = Z.of_nat idx) (s_ctx s).
+
 Definition no_other (toks : list token) : Prop := forall k, ~ In (TOther k) toks.
 Definition wants_sample (toks : list token) : bool := existsb (fun t => tok_eqb t TX || tok_eqb t TClass) toks.
 
@@ -114,13 +118,21 @@ Definition expected_cls (ds : dataset) (i : nat) (wit : option (nat * Q)) : list
   | Some (p, w) => blend w (label_vector ds i) (label_vector ds p)
   end.
 
+(* the labels that go into the returned one are probability vectors (class ids, one-hot / soft / smoothed rows; the
+   float32 entries of a smoothed row sum to one up to 1e-6) -- binary labels given as 1-element vectors are not *)
+Definition near_prob (v : list Q) : bool :=
+  forallb (fun x => Qle_bool 0 x) v && close (1 # 1000000) (qsum v) 1.
+Definition inputs_prob (ds : dataset) (i : nat) (wit : option (nat * Q)) : bool :=
+  near_prob (label_vector ds i) && match wit with None => true | Some (p, _) => near_prob (label_vector ds p) end.
+
 Definition item_ok (ds : dataset) (i : nat) (wit : option (nat * Q)) (t : token) (o : obs_value) : bool :=
   match t, o with
   | TX, OX sh data => list_eqb sh (shape (ds_x ds i)) && close_list tol_pix data (expected_x ds i wit)
   | TClass, OCls row =>
       close_list tol_lab row (expected_cls ds i wit)
-      && forallb (fun v => Qle_bool 0 v) row                     (* non-negative *)
-      && close tol_lab (qsum row) 1                              (* sums to one *)
+      && (negb (inputs_prob ds i wit)
+          || (forallb (fun v => Qle_bool 0 v) row                (* non-negative *)
+              && close tol_lab (qsum row) 1))                    (* sums to one *)
       && (length row =? ds_ncls ds)%nat
   | TIndex, OIndex v => v =? Z.of_nat i
   | _, _ => false
@@ -135,9 +147,11 @@ Fixpoint items_ok (ds : dataset) (i : nat) (wit : option (nat * Q)) (toks : list
 (* wit = (partner the wrapped dataset was asked for, weight decoded from the output) of the request that
    produced the returned items; None = no partner was loaded *)
 Definition spec_obs (ds : dataset) (c : cfg) (toks : list token) (i : nat)
-           (wit : option (nat * Q)) (os : list obs_value) : bool :=
+           (wit : option (nat * Q)) (os : list obs_value) (ctx_ids : list Z) : bool :=
   match wit with
   | None => Qltb (total_p c) 1 || negb (wants_sample toks)       (* probability one: every sample is mixed *)
   | Some (p, w) => (p <? ds_len ds)%nat && Qle_bool 0 w && Qle_bool w 1
   end
-  && items_ok ds i wit toks os.
+  && items_ok ds i wit toks os
+  (* every entry of the returned context was recorded while loading sample i (ctx_ids: the sample each entry decodes to) *)
+  && forallb (fun k => k =? Z.of_nat i) ctx_ids.
